@@ -1620,7 +1620,9 @@ func (sc *serverConn) processFrame(f Frame) error {
 						Val: s.Val,
 					})
 				}
-				md.HTTP2Frames.Settings = settings
+				md.HTTP2Frames.Update(func(fr *metadata.HTTP2FingerprintingFrames) {
+					fr.Settings = settings
+				})
 			}
 		}
 		return sc.processSettings(f)
@@ -1630,23 +1632,27 @@ func (sc *serverConn) processFrame(f Frame) error {
 			for _, h := range f.Fields {
 				headers = append(headers, metadata.HeaderField(h))
 			}
-			md.HTTP2Frames.Headers = headers
-			if f.HasPriority() {
-				md.HTTP2Frames.Priorities = append(md.HTTP2Frames.Priorities,
-					metadata.Priority{
-						StreamId:  f.StreamID,
-						StreamDep: f.Priority.StreamDep,
-						Exclusive: f.Priority.Exclusive,
-						Weight:    f.Priority.Weight,
-					})
-			}
+			md.HTTP2Frames.Update(func(fr *metadata.HTTP2FingerprintingFrames) {
+				fr.Headers = headers
+				if f.HasPriority() {
+					fr.Priorities = append(fr.Priorities,
+						metadata.Priority{
+							StreamId:  f.StreamID,
+							StreamDep: f.Priority.StreamDep,
+							Exclusive: f.Priority.Exclusive,
+							Weight:    f.Priority.Weight,
+						})
+				}
+			})
 		}
 		return sc.processHeaders(f)
 	case *WindowUpdateFrame:
 		if md, ok := metadata.FromContext(sc.baseCtx); ok {
-			if md.HTTP2Frames.WindowUpdateIncrement == 0 {
-				md.HTTP2Frames.WindowUpdateIncrement = f.Increment
-			}
+			md.HTTP2Frames.Update(func(fr *metadata.HTTP2FingerprintingFrames) {
+				if fr.WindowUpdateIncrement == 0 {
+					fr.WindowUpdateIncrement = f.Increment
+				}
+			})
 		}
 		return sc.processWindowUpdate(f)
 	case *PingFrame:
@@ -1657,11 +1663,13 @@ func (sc *serverConn) processFrame(f Frame) error {
 		return sc.processResetStream(f)
 	case *PriorityFrame:
 		if md, ok := metadata.FromContext(sc.baseCtx); ok {
-			md.HTTP2Frames.Priorities = append(md.HTTP2Frames.Priorities, metadata.Priority{
-				StreamId:  f.StreamID,
-				StreamDep: f.PriorityParam.StreamDep,
-				Exclusive: f.PriorityParam.Exclusive,
-				Weight:    f.PriorityParam.Weight,
+			md.HTTP2Frames.Update(func(fr *metadata.HTTP2FingerprintingFrames) {
+				fr.Priorities = append(fr.Priorities, metadata.Priority{
+					StreamId:  f.StreamID,
+					StreamDep: f.PriorityParam.StreamDep,
+					Exclusive: f.PriorityParam.Exclusive,
+					Weight:    f.PriorityParam.Weight,
+				})
 			})
 		}
 		return sc.processPriority(f)
